@@ -339,15 +339,16 @@ fn all_assignments(n: usize) -> Vec<Vec<u8>> {
 pub fn run(which: Which, tier: Tier) -> i32 {
     let prop = if which == Which::C05 { "C05" } else { "C18" };
     let mut rep = Report::new(prop, tier);
-    let mut sks = skeletons(tier);
+    // every accepted completion item is re-analysed (about 20x the cost of a C05 program): C18's
+    // quick tier keeps single-statement skeletons, its thorough tier the skeleton set of C05's quick tier
+    let mut sks = if which == Which::C18 { skeletons(Tier::Quick) } else { skeletons(tier) };
     if which == Which::C18 && tier == Tier::Quick {
-        // every accepted completion item is re-analysed: the quick tier keeps single-statement skeletons
         sks.retain(|s| s.len() == 1);
     }
     let ctxs = contexts();
     // C18 re-analyses per accepted item: use a sub-family of the contexts in the quick tier
     let ctxs: Vec<Context> = if which == Which::C18 && tier == Tier::Quick { ctxs.into_iter().filter(|c| c.params <= 1).collect() } else { ctxs };
-    let max_slots = tier.pick(9usize, 11usize);
+    let max_slots = if which == Which::C18 { 9usize } else { tier.pick(9usize, 11usize) };
     let jobs: Vec<(Context, &Vec<(usize, Option<usize>)>)> = ctxs.iter().flat_map(|c| sks.iter().map(move |s| (*c, s))).collect();
     let res: Vec<(u64, u64, u64, u64, Vec<Violation>)> = jobs
         .par_iter()
